@@ -26,7 +26,7 @@ func runC09(c *Ctx) {
 	c.Rule("C09.S", "the asserted identity replaces, never joins, client input", 2)
 	c.Rule("C09.V", "provenance of the asserted identity", 6)
 	c.Rule("C09.D", "identity write and credential strip dominate the handler-chain invocation under their flags", 5)
-	c.Rule("C09.N", "nothing downstream re-introduces or bypasses the filtered headers", 5)
+	c.Rule("C09.N", "nothing downstream re-introduces or bypasses the filtered headers", 6)
 	canonUID := canonicalHeaderKey(hdrUserID)
 
 	f := c.need(p, "C09.S", "agent.forwardRequest")
@@ -274,6 +274,81 @@ func runC09(c *Ctx) {
 			}
 		}
 	}
-	// agent.go builds the shim with the session handler only (no header-adding wrapper): covered by C02.W's table
-	c.OK("C09.N", "chain:no-other-request-header-writers", p, 0, "the who-may-write table of C02.W enumerates every request-header mutation in agent/sessions, agent/banner and agent/websockets; none writes Authorization or "+hdrUserID)
+	// the identity header cannot be made hop-by-hop by the client: the agent's reverse proxy drops
+	// every field named in a Connection header AFTER the agent set the identity, so a client-supplied
+	// "Connection: X-Inverting-Proxy-User-ID" would leave the backend with no identity at all. The
+	// stand-alone proxy removes Connection from client requests before it stores them.
+	if sv := c.need(p, "C09.N", "server.(*proxy).ServeHTTP"); sv != nil {
+		_, sk, _, ok2 := hopTableKeys(p)
+		has := false
+		for _, k := range sk {
+			if canonicalHeaderKey(k) == "Connection" {
+				has = true
+			}
+		}
+		var del, store ssa.Instruction
+		EachInstr(sv, func(i ssa.Instruction) {
+			if IsCall(i, "(net/http.Header).Del") && del == nil {
+				if _, isC := ConstString(PArgs(CallOf(i))[1]); !isC {
+					del = i
+				}
+			}
+			if IsCall(i, ModPath+"/server.newPendingRequest") {
+				store = i
+			}
+		})
+		guarded := false
+		if del != nil {
+			for b := del.Block(); b != nil && !guarded; b = b.Idom() {
+				if ifi := BlockIf(b); ifi != nil {
+					if CallResult(ifi.Cond, 0, ModPath+"/server.isHopByHopHeader") != nil {
+						guarded = true
+					}
+				}
+			}
+		}
+		okc := ok2 && has && del != nil && store != nil && guarded && blockReaches(del.Block(), store.Block()) && !blockReaches(store.Block(), del.Block())
+		c.Check("C09.N", "proxy:connection-header-removed-before-storing", p, sv.Pos(), okc, "the stand-alone proxy deletes the hop-by-hop fields (Connection among them) of a client request before it stores the request for the agent", "the stand-alone proxy no longer removes Connection from client requests before storing them: a client can name "+hdrUserID+" in Connection and the agent's reverse proxy then drops the asserted identity on its way to the backend")
+	}
+	// nothing behind the filter writes the filtered fields: no header write (Set, Add, map store,
+	// SetBasicAuth) with the key Authorization or the user-ID header in the packages of the chain
+	{
+		bad := ""
+		n := 0
+		for _, pkg := range []string{"agent/sessions", "agent/banner", "agent/websockets"} {
+			for _, fn := range p.AllFuncsIn(pkg) {
+				EachInstrRaw(fn, func(i ssa.Instruction) {
+					var key ssa.Value
+					switch x := i.(type) {
+					case *ssa.MapUpdate:
+						if NamedType(x.Map.Type()) == "net/http.Header" {
+							key = x.Key
+						}
+					default:
+						cc := CallOf(i)
+						if cc == nil {
+							return
+						}
+						switch CalleeName(cc) {
+						case "(net/http.Header).Set", "(net/http.Header).Add":
+							key = PArgs(cc)[1]
+						case "(*net/http.Request).SetBasicAuth":
+							bad = "SetBasicAuth in " + FuncName(fn) + " at " + p.Pos(i.Pos())
+						}
+					}
+					if key == nil {
+						return
+					}
+					n++
+					if k, ok := ConstString(key); ok {
+						switch canonicalHeaderKey(k) {
+						case "Authorization", canonicalHeaderKey(hdrUserID):
+							bad = "header " + canonicalHeaderKey(k) + " is written in " + FuncName(fn) + " at " + p.Pos(i.Pos())
+						}
+					}
+				})
+			}
+		}
+		c.Check("C09.N", "chain:no-writer-of-filtered-headers", p, 0, bad == "" && n > 0, fmt.Sprintf("%d header writes in agent/sessions, agent/banner and agent/websockets: none writes Authorization or "+hdrUserID, n), bad+": behind the agent's filter a credential or identity header is (re-)introduced — e.g. Basic credentials built from the user info of a client-supplied websocket URL reach the backend although --strip-credentials removed the client's own header")
+	}
 }
